@@ -159,6 +159,7 @@ func runC13(c *Ctx) {
 	c.c13GlobalsSetOnce()
 	c.c13SharedListsCopied()
 	c.c13UpdatesAreAtomic()
+	c.c13OperandsLeftAlone()
 }
 
 // c13Formats: "delivered intact". A message that travels through the format-string position of a printf-like
@@ -1137,4 +1138,57 @@ func (c *Ctx) c13UpdatesAreAtomic() {
 		}
 	}
 	c.Extra["read_modify_write_updates"] = n
+}
+
+// c13OperandsLeftAlone (L14): "each message is delivered … intact" — also to the members of a composite that are served after
+// this one, and to the other goroutines that log the same operands. The slice a Log/LogError (or any function of the logging
+// packages) receives — a variadic parameter filled with `args...` is the caller's own backing array — is read, never
+// rewritten: no element store, no in-place slices/sort operation on it.
+func (c *Ctx) c13OperandsLeftAlone() {
+	c.rule("L14", "a function of the logging packages never rewrites a slice it received as a parameter (no element store, no slices.DeleteFunc/Delete/Compact/Insert/Replace/Reverse/Sort*, no sort.* on it): operands are shared with the caller and the other members", 30)
+	inPlace := map[string]bool{
+		"slices.DeleteFunc": true, "slices.Delete": true, "slices.Compact": true, "slices.CompactFunc": true, "slices.Insert": true,
+		"slices.Replace": true, "slices.Reverse": true, "slices.Sort": true, "slices.SortFunc": true, "slices.SortStableFunc": true,
+		"sort.Slice": true, "sort.SliceStable": true, "sort.Strings": true, "sort.Sort": true, "sort.Stable": true,
+	}
+	for _, rel := range c13Pkgs {
+		for _, f := range c.srcFuncs(rel) {
+			if f.Parent() != nil {
+				continue
+			}
+			for _, prm := range f.Params {
+				if _, isSlice := prm.Type().Underlying().(*types.Slice); !isSlice {
+					continue
+				}
+				bad := ""
+				withAnon(f, func(g *ssa.Function) {
+					allInstrs(g, func(in ssa.Instruction) {
+						switch x := in.(type) {
+						case *ssa.Store:
+							if ia, ok := x.Addr.(*ssa.IndexAddr); ok && resolveValue(ia.X) == ssa.Value(prm) {
+								bad = "an element is stored at " + c.ipos(in)
+							}
+						case *ssa.Call:
+							n := calleeFull(&x.Call)
+							// generic instantiations print as slices.DeleteFunc[...]
+							if i := strings.Index(n, "["); i > 0 {
+								n = n[:i]
+							}
+							if inPlace[n] && len(x.Call.Args) > 0 {
+								a := x.Call.Args[0]
+								if mi, ok := a.(*ssa.MakeInterface); ok {
+									a = mi.X
+								}
+								if resolveValue(stripConv(a)) == ssa.Value(prm) {
+									bad = short(n) + " rewrites it in place at " + c.ipos(in)
+								}
+							}
+						}
+					})
+				})
+				c.check(bad == "", "L14", fname(f)+"/operands:"+prm.Name(), c.pos(f.Pos()), "the slice received is only read",
+					"the slice "+prm.Name()+" belongs to the caller ("+bad+"): a composite hands the same operands to its next member, which receives another message than the one logged (`step 3: <nil> gave up` arrives as `step 3: gave up <nil>`), and goroutines logging the same operands race")
+			}
+		}
+	}
 }
